@@ -9,6 +9,8 @@
 (*   r3  database copied and the application reloaded in the middle        *)
 (*   r4  another process started later, another environment (TZ, GOGC,    *)
 (*       GOMAXPROCS)                                                       *)
+(*   r5  run after the wall clock passed the end of a vesting account all header times call expired *)
+(*   r6  a node that serves eth_call (tip and historical heights), CheckTx and Simulate between blocks *)
 (* each at another wall-clock instant and with another hash-map seed.      *)
 (* Lines: History (starts a trace), Block (replica, height, app hash,      *)
 (* per-transaction code / codespace / data / gas wanted / gas used /       *)
